@@ -48,5 +48,5 @@ Definition tagged : list Z :=
              OExt HEXT_FIXED [(G_PAD, [0; 0; 0])]; OLeaf G_PAD (zeros 40)] [7; 8; 9].
 Example tagged_loads : asf_load tagged = Ok [mkT 0 N_TITLE 0 0 (VText [72; 105])].
 Proof. vm_compute. reflexivity. Qed.
-Example tagged_deleted : exists f', asf_delete tagged = Ok f' /\ asf_load f' = Ok [] /\ asf_delete f' = Ok f' /\ zlen f' = 261.
+Example tagged_deleted : exists f', asf_delete tagged = Ok f' /\ asf_load f' = Ok [] /\ asf_delete f' = Ok f' /\ zlen f' = 303.
 Proof. eexists. split; [vm_compute; reflexivity|]. repeat split; vm_compute; reflexivity. Qed.
